@@ -161,7 +161,7 @@ def run_interactive(ctx, fzf, c):
     s = tmuxdrv.Session(ctx, fzf, args, input_data=c["stdin"], width=60, height=14)
     try:
         s.wait_listening()
-        s.wait_for(lambda tr: any(e["ev"] == "term.list" and e.get("final") for e in tr), what="first final list")
+        s.wait_for(lambda tr: any(e["ev"] == "term.list" and not e["reading"] for e in tr), what="first final list")
         loops = 0
         for kind, arg in c["steps"]:
             st, _ = s.post(arg)
